@@ -1071,3 +1071,192 @@ Proof.
   - intros _ _. split; [exact D'|]. intros r w I. exact (proj2 (Wt' r w I)).
 Qed.
 End Mix.
+
+(* ================================================================== non-vacuity *)
+(* concrete tables satisfying the hypotheses of the theorems above (msdm's own test tables) *)
+Definition ex_A : table := [([(0%nat, 0%Z)], 9 # 10); ([(0%nat, 1%Z)], 1 # 10)].
+Definition ex_B : table := [([(1%nat, 0%Z)], 1 # 2); ([(1%nat, 1%Z)], 1 # 2)].
+Definition ex_AB : table := [([(0%nat, 0%Z); (1%nat, 0%Z)], 9 # 10); ([(0%nat, 1%Z); (1%nat, 1%Z)], 1 # 10)].
+Definition ex_BC : table :=
+  [([(1%nat, 0%Z); (2%nat, 0%Z)], 1 # 3); ([(1%nat, 1%Z); (2%nat, 0%Z)], 1 # 3); ([(1%nat, 1%Z); (2%nat, 1%Z)], 1 # 3)].
+Definition ex_A2 : table := [([(0%nat, 1%Z)], 1 # 2); ([(0%nat, 2%Z)], 1 # 2)].
+
+Ltac solve_over :=
+  intros r I; simpl in I;
+  repeat (destruct I as [<-|I]; [split; [intro k; simpl; intuition | unfold row_wf; simpl; repeat constructor; simpl; intuition discriminate]|]);
+  destruct I.
+
+Example ex_A_over : table_over [0%nat] ex_A. Proof. solve_over. Qed.
+Example ex_B_over : table_over [1%nat] ex_B. Proof. solve_over. Qed.
+Example ex_AB_over : table_over [0%nat; 1%nat] ex_AB. Proof. solve_over. Qed.
+Example ex_BC_over : table_over [1%nat; 2%nat] ex_BC. Proof. solve_over. Qed.
+Example ex_A2_over : table_over [0%nat] ex_A2. Proof. solve_over. Qed.
+
+(* independent product: hypotheses hold and the conclusion is the 2 x 2 product measure *)
+Example product_independent_nonvacuous :
+  table_over [0%nat] ex_A /\ table_over [1%nat] ex_B /\ (forall k, In k [0%nat] -> ~ In k [1%nat]) /\
+  rows_distinct (ft_rows ex_A) /\ rows_distinct (ft_rows ex_B) /\
+  map snd (ft_product ex_A ex_B) = [(9 # 10) * (1 # 2); (9 # 10) * (1 # 2); (1 # 10) * (1 # 2); (1 # 10) * (1 # 2)].
+Proof.
+  split; [exact ex_A_over|]. split; [exact ex_B_over|]. split; [simpl; intuition lia|].
+  split; [vm_compute; tauto|]. split; [vm_compute; tauto|]. reflexivity.
+Qed.
+
+(* overlapping variables: the dependent-conjunction example of msdm's tests: only the matching rows survive *)
+Example product_natural_join_nonvacuous :
+  table_over [0%nat; 1%nat] ex_AB /\ table_over [1%nat; 2%nat] ex_BC /\
+  map snd (ft_product ex_AB ex_BC) = [(9 # 10) * (1 # 3); (1 # 10) * (1 # 3); (1 # 10) * (1 # 3)] /\
+  ft_nonneg ex_AB /\ ft_nonneg ex_BC /\ ft_product ex_AB ex_BC <> [].
+Proof.
+  split; [exact ex_AB_over|]. split; [exact ex_BC_over|]. split; [reflexivity|].
+  split; [|split; [|discriminate]]; intros r w I; simpl in I;
+    repeat (destruct I as [I|I]; [inversion I; subst; discriminate|]); destruct I.
+Qed.
+
+(* mixture over the same variable: weights add on the shared row *)
+Example mix_adds_nonvacuous :
+  table_over [0%nat] (ft_scale (1 # 10) ex_A) /\ table_over [0%nat] (ft_scale (9 # 10) ex_A2) /\
+  Qeq_bool (ft_w (ft_mix (ft_scale (1 # 10) ex_A) (ft_scale (9 # 10) ex_A2)) [(0%nat, 1%Z)])
+           ((1 # 10) * (1 # 10) + (1 # 2) * (9 # 10)) = true /\
+  length (ft_mix (ft_scale (1 # 10) ex_A) (ft_scale (9 # 10) ex_A2)) = 3%nat.
+Proof.
+  split; [solve_over|]. split; [solve_over|]. split; reflexivity.
+Qed.
+
+Example marginalize_nonvacuous :
+  rows_distinct (ft_rows ex_BC) /\
+  map (fun e => Qred (snd e)) (ft_marginalize [1%nat] ex_BC) = [1 # 3; 2 # 3].
+Proof. split; [vm_compute; tauto | reflexivity]. Qed.
+
+(* ================================================================== more general facts (used by the grid game) *)
+Lemma match_same_keys K a b : has_keys K a -> has_keys K b -> row_wf b ->
+  (dict_match a b = true <-> req a b).
+Proof.
+  intros Ha Hb Wb. split.
+  - intros M k. destruct (in_dec Nat.eq_dec k K) as [I|N].
+    + destruct (rget_in_keys k a (proj1 (Ha k) I)) as [v G].
+      destruct (rget_in_keys k b (proj1 (Hb k) I)) as [v' G'].
+      rewrite G, G'. f_equal. eapply dict_match_agree; eauto.
+    + assert (rget k a = None) by (apply rget_none; intro; apply N, Ha; auto).
+      assert (rget k b = None) by (apply rget_none; intro; apply N, Hb; auto). congruence.
+  - intro E. apply dict_match_spec. intros k v v' I G.
+    pose proof (rget_in_wf k v b Wb I) as G'. rewrite E in G. congruence.
+Qed.
+
+Lemma keys_merge l r k : In k (map fst (dict_merge l r)) <-> In k (map fst l) \/ In k (map fst r).
+Proof.
+  assert (A : forall x (s : row), In x (map fst s) <-> rget x s <> None).
+  { intros x s. rewrite rget_none. destruct (in_dec Nat.eq_dec x (map fst s)); tauto. }
+  rewrite !A, rget_merge_gen.
+  assert (B : rget k (rev r) <> None <-> rget k r <> None).
+  { rewrite <- !A, map_rev, <- in_rev. tauto. }
+  destruct (rget k (rev r)) eqn:E.
+  - split; [intros _; right; apply B; congruence | intros _; congruence].
+  - split; [intro H; now left | intros [H|H]; [exact H | apply B in H; congruence]].
+Qed.
+
+Lemma ft_w_nonneg t x : ft_nonneg t -> 0 <= ft_w t x.
+Proof.
+  intro N. induction t as [|[r0 w0] t IH]; simpl; [apply Qle_refl|].
+  destruct (row_eqb r0 x); [apply (N r0 w0); now left | apply IH; intros r' w' I; apply (N r' w'); now right].
+Qed.
+
+Lemma ft_w_pos_mem t x : ~ ft_w t x == 0 -> exists r w, In (r, w) t /\ req r x /\ w = ft_w t x.
+Proof.
+  induction t as [|[r0 w0] t IH]; simpl; intro H; [exfalso; apply H; reflexivity|].
+  destruct (row_eqb r0 x) eqn:E.
+  - exists r0, w0. split; [now left|]. split; [now apply row_eqb_spec | reflexivity].
+  - destruct (IH H) as [r [w [I [E' W]]]]. exists r, w. split; [now right | auto].
+Qed.
+
+(* where the rows of a mixture come from, and their weights (no assumption on the variables) *)
+Section MixRows.
+Variables t1 t2 : table.
+
+Definition mix_row_ok (r : row) (w : Q) : Prop :=
+  ~ w == 0 /\
+  ((exists a b, In a (ft_rows t1) /\ In b (ft_rows t2) /\ dict_match a b = true /\
+                r = dict_merge a b /\ w = ft_w t1 a + ft_w t2 b) \/
+   ((In r (ft_rows t1) \/ In r (ft_rows t2)) /\ w = ft_w t1 r + ft_w t2 r)).
+
+Lemma mix_step_rows st p : In p (ppairs t1 t2) ->
+  (forall r w, In (r, w) (mx_tab st) -> mix_row_ok r w) ->
+  (forall u, In u (mx_unmatched st) -> In u (ft_rows t1) \/ In u (ft_rows t2)) ->
+  (forall r w, In (r, w) (mx_tab (mix_step t1 t2 st p)) -> mix_row_ok r w) /\
+  (forall u, In u (mx_unmatched (mix_step t1 t2 st p)) -> In u (ft_rows t1) \/ In u (ft_rows t2)).
+Proof.
+  intros Ip H1 H2. destruct p as [a b]. apply in_prod_iff in Ip. destruct Ip as [Ia Ib].
+  unfold mix_step. simpl fst; simpl snd.
+  destruct (dict_match a b) eqn:M.
+  - destruct (row_mem (dict_merge a b) (ft_rows (mx_tab st))); simpl; [auto|].
+    destruct (qzero (ft_w t1 a + ft_w t2 b)) eqn:Zr; simpl; [auto|].
+    split; [|auto]. intros r w I. apply in_app_or in I. destruct I as [I|[I|[]]]; [auto|].
+    inversion I; subst. split; [now apply qzero_false|]. left. exists a, b. auto.
+  - simpl. split; [auto|]. intros u I. apply in_app_or in I.
+    destruct I as [I|[<-|[<-|[]]]]; auto.
+Qed.
+
+Lemma mix_fold_rows ps : forall st, (forall p, In p ps -> In p (ppairs t1 t2)) ->
+  (forall r w, In (r, w) (mx_tab st) -> mix_row_ok r w) ->
+  (forall u, In u (mx_unmatched st) -> In u (ft_rows t1) \/ In u (ft_rows t2)) ->
+  (forall r w, In (r, w) (mx_tab (fold_left (mix_step t1 t2) ps st)) -> mix_row_ok r w) /\
+  (forall u, In u (mx_unmatched (fold_left (mix_step t1 t2) ps st)) -> In u (ft_rows t1) \/ In u (ft_rows t2)).
+Proof.
+  induction ps as [|p ps IH]; intros st Sub H1 H2; simpl; [auto|].
+  destruct (mix_step_rows st p (Sub p (or_introl eq_refl)) H1 H2) as [A B].
+  apply IH; auto. intros; apply Sub; now right.
+Qed.
+
+Lemma mix_outer_rows matched us : forall acc,
+  (forall u, In u us -> In u (ft_rows t1) \/ In u (ft_rows t2)) ->
+  (forall r w, In (r, w) acc -> mix_row_ok r w) ->
+  forall r w, In (r, w) (fold_left (mix_outer t1 t2 matched) us acc) -> mix_row_ok r w.
+Proof.
+  induction us as [|u us IH]; intros acc Sub H; simpl; [exact H|].
+  apply IH; [intros; apply Sub; now right|].
+  unfold mix_outer. destruct (row_mem u matched || row_mem u (ft_rows acc)); [exact H|].
+  destruct (qzero (ft_w t1 u + ft_w t2 u)) eqn:Zr; [exact H|].
+  intros r w I. apply in_app_or in I. destruct I as [I|[I|[]]]; [auto|].
+  inversion I; subst. split; [now apply qzero_false|]. right. split; [apply Sub; now left | reflexivity].
+Qed.
+
+Lemma mix_rows : t1 <> [] -> t2 <> [] -> forall r w, In (r, w) (ft_mix t1 t2) -> mix_row_ok r w.
+Proof.
+  intros N1 N2.
+  assert (Emix : ft_mix t1 t2 =
+    let st := fold_left (mix_step t1 t2) (ppairs t1 t2) (mkMix [] [] []) in
+    fold_left (mix_outer t1 t2 (mx_matched st)) (mx_unmatched st) (mx_tab st)).
+  { destruct t1; [congruence|]. destruct t2; [congruence|]. reflexivity. }
+  rewrite Emix. simpl.
+  destruct (mix_fold_rows (ppairs t1 t2) (mkMix [] [] [])) as [A B]; simpl; auto; try (intros ? ? []); try (intros ? []).
+  apply mix_outer_rows; auto.
+Qed.
+End MixRows.
+
+Lemma mix_nonneg t1 t2 : ft_nonneg t1 -> ft_nonneg t2 -> ft_nonneg (ft_mix t1 t2).
+Proof.
+  intros N1 N2. destruct t1 as [|e1 t1'] eqn:E1; [exact N2|]. destruct t2 as [|e2 t2'] eqn:E2; [exact N1|].
+  rewrite <- E1, <- E2 in *. intros r w I.
+  destruct (mix_rows t1 t2 (ltac:(rewrite E1; discriminate)) (ltac:(rewrite E2; discriminate)) r w I) as [_ [[a [b [_ [_ [_ [_ ->]]]]]]|[_ ->]]];
+    pose proof (ft_w_nonneg t1); pose proof (ft_w_nonneg t2).
+  - specialize (H a N1). specialize (H0 b N2). lra.
+  - specialize (H r N1). specialize (H0 r N2). lra.
+Qed.
+
+Lemma scale_nonneg c t : 0 <= c -> ft_nonneg t -> ft_nonneg (ft_scale c t).
+Proof.
+  intros C N r w I. unfold ft_scale in I. apply in_map_iff in I. destruct I as [[r0 w0] [E I]].
+  inversion E; subst. simpl. apply Qmult_le_0_compat; [eapply N; eauto | exact C].
+Qed.
+
+Lemma positive_nonneg t : ft_positive t -> ft_nonneg t.
+Proof. intros P r w I. apply Qlt_le_weak, (P r w I). Qed.
+
+(* lookup in a table built by tagging each row with a dictionary-invariant weight *)
+Lemma ft_w_map (f : row -> Q) rows r :
+  (forall x y, req x y -> f x = f y) -> In r rows -> ft_w (map (fun x => (x, f x)) rows) r = f r.
+Proof.
+  intros Fr. induction rows as [|x t IH]; simpl; intro I; [destruct I|].
+  destruct (row_eqb x r) eqn:E; [apply Fr; now apply row_eqb_spec|].
+  destruct I as [->|I]; [rewrite row_eqb_refl in E; discriminate | auto].
+Qed.
